@@ -148,10 +148,15 @@ func validAt(g *valgen.G, a *spec.Attr, loc valgen.Loc) any {
 
 // Payload draws a valid payload for a method. mode: 0 minimal, 1 full, else random.
 func Payload(sp *spec.Spec, m *spec.Method, r *vc.Rand, mode int) (tree any, none bool) {
+	return PayloadAlt(sp, m, r, mode, 0)
+}
+
+// PayloadAlt is Payload with a systematic choice of union alternatives (valgen.G.AltRot; 0 = random).
+func PayloadAlt(sp *spec.Spec, m *spec.Method, r *vc.Rand, mode, altRot int) (tree any, none bool) {
 	if m.Payload == nil {
 		return nil, true
 	}
-	g := &valgen.G{S: sp, R: r, Minimal: mode == 0, Full: mode == 1}
+	g := &valgen.G{S: sp, R: r, Minimal: mode == 0, Full: mode == 1, AltRot: altRot}
 	rt, _ := sp.Resolve(m.Payload.Type)
 	if rt == nil {
 		rt = m.Payload.Type
@@ -263,10 +268,15 @@ func nonEmpty(g *valgen.G, a *spec.Attr, loc valgen.Loc) any {
 
 // Result draws a valid result value and the response it selects.
 func Result(sp *spec.Spec, m *spec.Method, r *vc.Rand, mode int) any {
+	return ResultAlt(sp, m, r, mode, 0)
+}
+
+// ResultAlt is Result with a systematic choice of union alternatives (valgen.G.AltRot; 0 = random).
+func ResultAlt(sp *spec.Spec, m *spec.Method, r *vc.Rand, mode, altRot int) any {
 	if m.Result == nil {
 		return nil
 	}
-	g := &valgen.G{S: sp, R: r, Minimal: mode == 0, Full: mode == 1}
+	g := &valgen.G{S: sp, R: r, Minimal: mode == 0, Full: mode == 1, AltRot: altRot}
 	rt, _ := sp.Resolve(m.Result.Type)
 	if rt == nil {
 		rt = m.Result.Type
@@ -332,7 +342,7 @@ func Delivery(sp *spec.Spec, sv *spec.Service, m *spec.Method, r *vc.Rand, n int
 		if i > 1 {
 			c.Class = "random"
 		}
-		c.Sent, c.NoPay = Payload(sp, m, rr, i)
+		c.Sent, c.NoPay = PayloadAlt(sp, m, rr, i, i+1) // every alternative of every union in turn
 		if c.Sent == nil && !c.NoPay && m.Payload != nil {
 			continue // no transport-safe valid payload for this draw
 		}
@@ -344,7 +354,7 @@ func Delivery(sp *spec.Spec, sv *spec.Service, m *spec.Method, r *vc.Rand, n int
 				c.Class += "-raw"
 			}
 		}
-		c.Outcome = &rt.Outcome{Kind: "result", Result: Result(sp, m, rr.Fork(99), (i+1)%3)}
+		c.Outcome = &rt.Outcome{Kind: "result", Result: ResultAlt(sp, m, rr.Fork(99), (i+1)%3, i+1)}
 		if v := viewsOf(sp, m); len(v) > 0 {
 			c.Outcome.View = v[rr.Intn(len(v))]
 		}
